@@ -95,15 +95,21 @@ def run(ctx):
                         ['policy', S('p1'), 'permit', ['all'], ['all'], ['all'], ['conds']]]
                 cases.append(case('dt%d' % nb, 'determ-batch', c06.STORE, ['req', c06.UA, c06.ACT, c06.DOC, gen.vrec(fields)],
                                   ['vars', [S('n'), gen.vlong(1), gen.vlong(2)], [S('m'), gen.vlong(1), gen.vlong(3)]], ['policies'] + pols, ['mode', 'none']))
+    # schemas born as ASTs (entity types with several parents in any order, action groups, annotations, namespaces): both encoders, in
+    # both call orders, on the same object and on fresh copies; decode the same bytes twice and re-encode
+    import schemaast
+    for i in range(300 if quick else 8000):
+        a = schemaast.schema_ast(r) if i % 3 else schemaast.wild_ast(r, tame=True)
+        cases.append(case('s%d' % i, 'determ-schema', a))
     ctx.rule = ('each case is run 40 times in one process with entity maps and policy sets rebuilt in shuffled insertion order: expression '
                 'evaluation (value or error MESSAGE), authorization (decision, set of reasons, set of errors incl. messages), policy-set / policy / '
-                'entity-map / value encoders (bytes), decode-then-encode from JSON and from text (bytes), batch authorization (status, callbacks, multiset of results; templates that mix ignored entries and variables inside one composite). Includes record literals with several '
+                'entity-map / value encoders (bytes), decode-then-encode from JSON and from text (bytes), batch authorization (status, callbacks, multiset of results; templates that mix ignored entries and variables inside one composite), schemas (text and JSON encoders interleaved on one object and on fresh copies, the schema unchanged by encoding, decode-twice-and-re-encode). Includes record literals with several '
                 'failing fields, sets, `in` over sets, 1-6 policy sets, annotated policies. non-trivial = the case contains a map-backed collection')
     go = lib.run_go(cases, 'determ', ctx.workdir, timeout_ms=60000)
     bad = 0
     for c in cases:
         res = go.get(lib.case_id(c), '(missing)')
-        ctx.count(c.split(' ', 2)[2], '(mkrec' in c or '(set' in c or '(rec' in c or '(policies' in c or '(annots' in c)
+        ctx.count(c.split(' ', 2)[2], '(mkrec' in c or '(set' in c or '(rec' in c or '(policies' in c or '(annots' in c or ' determ-schema ' in c)
         if res in ('(same)', '(unrenderable)'):
             continue
         if res.startswith('(differs eval') or res.startswith('(differs authorize'):
